@@ -592,8 +592,11 @@ func step(s *side, bkt string, o op) ([]*s3c.Resp, error) {
 			}
 			return one(cl.Call("GET", path, q, nil, nil))
 		case "mpuabort":
-			delete(s.uploads, o.Key)
-			return one(cl.Call("DELETE", path, s3c.Q("uploadId", id), nil, nil))
+			r, err := cl.Call("DELETE", path, s3c.Q("uploadId", id), nil, nil)
+			if err == nil && r.Status == 204 {
+				delete(s.uploads, o.Key) // a refused abort leaves the upload in progress
+			}
+			return one(r, err)
 		default:
 			var parts []s3c.Part
 			for i, et := range u.etags {
